@@ -1,6 +1,8 @@
 (* C14 — building and applying a filter never panics or hangs. *)
 From Coq Require Import ZArith Lia.
 From Syz Require Import QEval QLexProofs QSemProofs QParseProofs QParseFuel.
+(* the tables of the model are the ones regenerated from the Go sources on this run *)
+From Syz Require GenTablesOk.
 Open Scope N_scope.
 
 (* The lexer model has no partial operation left (the slice expressions of readIdentifierOrKeyword,
